@@ -581,8 +581,8 @@ impl AssemblyCode {
                                 }
                             }
                             if let Some(v) = &x_register {
-                                if v.eq(&inst.dasm_operand) {
-                                    // Remove this instruction
+                                if v.eq(&inst.dasm_operand) && flags == FlagsState::X {
+                                    // Remove this instruction: X holds the value and N/Z describe it
                                     remove_second = !inst.protected;
                                 }
                             }
@@ -601,8 +601,8 @@ impl AssemblyCode {
                                 }
                             }
                             if let Some(v) = &y_register {
-                                if v.eq(&inst.dasm_operand) {
-                                    // Remove this instruction
+                                if v.eq(&inst.dasm_operand) && flags == FlagsState::Y {
+                                    // Remove this instruction: Y holds the value and N/Z describe it
                                     remove_second = !inst.protected;
                                 }
                             }
